@@ -235,6 +235,20 @@ pub fn file(f: &File) -> String {
 }
 
 pub fn error_line(e: &anyhow::Error) -> String {
+    // formatting the error for display must succeed (a panic in it is caught by the caller and reported) and
+    // show the location the error value carries
+    let shown = e.to_string();
+    let debug = format!("{:?}", e);
+    let loc = match e.downcast_ref::<gosyn::Error>() {
+        Some(gosyn::Error::UnexpectedToken { location, .. }) | Some(gosyn::Error::Else { location, .. }) => Some(*location),
+        _ => None,
+    };
+    if let Some((l, c)) = loc {
+        let want = format!(":{}:{} ", l, c);
+        if !shown.contains(&want) || !debug.contains(&want) {
+            return format!("ERR display {}", esc(&shown));
+        }
+    }
     match e.downcast_ref::<gosyn::Error>() {
         Some(gosyn::Error::UnexpectedToken { location, actual, .. }) => format!(
             "ERR u {} {} {}", location.0, location.1,
